@@ -222,9 +222,8 @@ def run_module(it, ctx, program, opts, resp, comments=None):
     module = program.fields[0]
     tr = traversal(it)
     holder = [module]
-    fn = tr.over.get('Module')
-    if fn is None:
-        raise Unsupported('visit_mut_module is not in the MIR dump')
-    it.run(ctx, fn, [mkref(vis), Ref(holder, 0)])
+    # `program.visit_mut_with(&mut visitor)`: type-directed from the Module node - through the visitor's own `visit_mut_module`
+    # when it overrides it, otherwise through the generic traversal (which reaches e.g. a `visit_mut_module_items` override)
+    tr.visit_slot(ctx, mkref(vis), holder, 0, 'Module')
     program.fields[0] = holder[0]
     return vis
